@@ -223,6 +223,22 @@ def check(case, ctx):
     ch.set_noise_seed(0)
     aNr, aNt = np.array(Nr, dtype=int), np.array(Nt, dtype=int)
     args = [aNr, aNt, K] + ([np.array(NtE, dtype=int)] if ext else [])
+    if case["pl"] is not None and case.get("reused_object"):
+        # the channel OBJECT served another antenna split (same users) with
+        # the same path loss before; it is then re-initialised and the path
+        # loss is set again (what the apps do for every drop)
+        ctx.label("channel_object_reused_with_other_split")
+        prs0 = np.random.RandomState(int(case["pl"]))
+        PL0 = 10.0 ** prs0.uniform(-3.0, 1.0, size=(K, K + E))
+        Nr0, Nt0 = list(reversed(Nr)), list(reversed(Nt))
+        args0 = [np.array(Nr0, dtype=int), np.array(Nt0, dtype=int), K] + \
+            ([np.array(NtE, dtype=int)] if ext else [])
+        ch.randomize(*args0)
+        if ext:
+            ch.set_pathloss(PL0[:, :K].copy(), PL0[:, K:].copy())
+        else:
+            ch.set_pathloss(PL0.copy())
+        ch.big_H        # fill the lazily cached views
     if case["init"] == "matrix":
         raw = _randc(rs, sum(Nr), sum(Nt) + sum(NtE))
         ch.init_from_channel_matrix(raw.copy(), *args)
@@ -341,8 +357,8 @@ def check(case, ctx):
     if case["load"] == "full_F":
         sol.set_precoders(full_F=_obj([f.copy() for f in F]), P=P)
     else:
-        sol.set_precoders(F=_obj([f / np.linalg.norm(f) for f in F]),
-                          P=np.array(pw, dtype=float))
+        P = np.array(pw, dtype=float)
+        sol.set_precoders(F=_obj([f / np.linalg.norm(f) for f in F]), P=P)
     if case["w_as"] == "W":
         sol.set_receive_filters(W=_obj([u.copy() for u in U]))
     else:
@@ -393,6 +409,29 @@ def check(case, ctx):
         _check_Q(ctx, "Q", sol.calc_Q(k),
                  _oracle_Q(model, k, fF, noise, 1.0 if ext else 0.0, False),
                  t, "solver.calc_Q(%d)" % k)
+    # power sweep as a user writes it: the caller updates ITS OWN power array
+    # in place and assigns it again; the reported SINRs must be those of the
+    # new powers (precoders scale with sqrt(P), everything was cached above)
+    c = 4.0
+    P_old = np.array(P, dtype=float, copy=True)
+    P *= c
+    sol.P = P
+    t2 = dict(t, step="power_array_updated_in_place")
+    ctx.label("repower_in_place")
+    fF2 = [np.array(x) for x in sol.full_F]
+    # documented relation: full_F[k] = F[k] * sqrt(P[k]), F[k] of unit norm
+    want = [f / np.linalg.norm(f) * math.sqrt(c * P_old[k])
+            for k, f in enumerate(fF)]
+    for k in range(K):
+        ctx.close("solver_full_F_after_power_change",
+                  float(np.max(np.abs(fF2[k] - want[k]))),
+                  1e-12 * math.sqrt(c * P_old[k]) + 1e-300, "user %d: full_F "
+                  "does not follow the new power" % k, t2)
+    fW2 = [np.array(x) for x in sol.full_W]
+    ref2 = _oracle_sinr(model, want, fW2, noise, 0.0, False)
+    _cmp_sinr(ctx, "sinr_solver_vs_oracle", sol.calc_SINR(), ref2, t2,
+              "solver.calc_SINR after the power array was scaled in place "
+              "and assigned again")
 
 
 # ----------------------------------------------------------------------------
@@ -425,6 +464,7 @@ def _strategy(tier):
             pl=draw(st.one_of(st.none(), seeds)),
             noise_var=draw(st.one_of(st.none(), st.just(0.0),
                                      loguniform(-4, 1), loguniform(-4, 1))),
+            reused_object=draw(st.sampled_from([False, False, True])),
             noise_type=draw(st.sampled_from(["float", "float", "float", "int",
                                              "np.int64", "np.float32",
                                              "np.float64"])),
